@@ -39,7 +39,7 @@ fn usage() -> ! {
 fn seed_from_env() -> u64 {
     match std::env::var("VERIF_SEED") {
         Ok(s) if !s.trim().is_empty() => s.trim().parse::<u64>().unwrap_or_else(|_| {
-            eprintln!("harness error: VERIF_SEED={:?} is not an unsigned integer", s);
+            println!("harness error: VERIF_SEED={:?} is not an unsigned integer", s);
             std::process::exit(2);
         }),
         _ => 1,
@@ -77,7 +77,7 @@ fn intern_prop(p: &str) -> &'static str {
         "C15" => "C15",
         "C19" => "C19",
         _ => {
-            eprintln!("harness error: property {} has no check (not applicable or unknown)", p);
+            println!("harness error: property {} has no check (not applicable or unknown)", p);
             std::process::exit(2);
         }
     }
@@ -203,15 +203,15 @@ fn check(prop: &'static str, tier: Tier) -> i32 {
 
 fn replay(path: &str) -> i32 {
     let text = std::fs::read_to_string(path).unwrap_or_else(|e| {
-        eprintln!("harness error: cannot read {}: {}", path, e);
+        println!("harness error: cannot read {}: {}", path, e);
         std::process::exit(2);
     });
     let body: Value = serde_json::from_str(&text).unwrap_or_else(|e| {
-        eprintln!("harness error: {} is not JSON: {}", path, e);
+        println!("harness error: {} is not JSON: {}", path, e);
         std::process::exit(2);
     });
     let case: Case = serde_json::from_value(body["case"].clone()).unwrap_or_else(|e| {
-        eprintln!("harness error: replay case does not parse: {}", e);
+        println!("harness error: replay case does not parse: {}", e);
         std::process::exit(2);
     });
     let prop = body["property"].as_str().unwrap_or("").to_string();
